@@ -601,6 +601,8 @@ fn rand_multi_cfg(rng: &mut Rng, mostly_valid: bool) -> Vec<String> {
                 d
             }
         };
+        // overlap is tested without regard to ASCII case (cf352e8): spell the related entry in another case
+        let d = if roll <= 3 && !v.is_empty() && rng.chance(1, 2) { flip_case(rng, &d) } else { d };
         v.push(d);
     }
     v
